@@ -126,6 +126,23 @@ def gen(rng, tier):
             p[q] ^= 1 << rng.randrange(8)
             yield "parse %s 8" % hx(bytes(p))
         yield "parse %s 8" % hx(e + b"\x00")
+        yield "elparse %s 8" % hx(e)
+        yield "elparse %s 8" % hx(e + b"\x00")
+        if t.kids:
+            tags = [k.tag for k in t.kids]
+            tg = rng.choice(tags + [rng.choice(TAGS)])
+            yield "elremove %s %d %d" % (hx(e), tg, rng.randrange(2))
+            c = rtree(rng, 1)
+            if rng.random() < 0.5:
+                c.tag = rng.choice(tags)
+            yield "elset %s %s" % (hx(e), hx(c.enc()))
+        if t.kids is not None and i % 3 == 0:
+            # stray bytes after the last child: the nested view must be refused
+            for extra in (b"\x00", b"\x01", b"\x80", b"\x05\x01"):
+                bad = T(t.tag, t.fl, payload=t.content() + extra).enc()
+                yield "elparse %s 8" % hx(bad)
+                yield "parse %s 8" % hx(bad)
+                yield "elremove %s %d 1" % (hx(bad), t.kids[0].tag if t.kids else 1)
     for i in range(200 if tier == "quick" else 5000):
         r = rbytes(rng, rng.choice([0, 1, 2, 3, 4, 5, 8, 16, 40]))
         yield "parse %s 8" % hx(r)
